@@ -1,9 +1,11 @@
 package main
 
 import (
+	"encoding/json"
 	"flag"
 	"fmt"
 	"os"
+	"path/filepath"
 	"sort"
 	"strings"
 	"time"
@@ -23,6 +25,8 @@ func main() {
 		cmdMapRanges(os.Args[2:])
 	case "sweep":
 		cmdSweep(os.Args[2:])
+	case "locals":
+		cmdLocals(os.Args[2:])
 	default:
 		fmt.Fprintln(os.Stderr, "unknown command", os.Args[1])
 		os.Exit(2)
@@ -112,4 +116,36 @@ func cmdVerify(args []string) {
 	if bad > 0 {
 		os.Exit(1)
 	}
+}
+
+
+// cmdLocals writes /verif/locals.json: for every function of the repository the names of its
+// receiver, parameters and named locals in declaration order. Contract clauses name locals; when
+// one was merely renamed (same number of declarations, other name at the same ordinal) the
+// engine re-binds the clause instead of reporting drift. Regenerate whenever contracts are
+// brought in line with the code: `bin/govc locals`.
+func cmdLocals(args []string) {
+	fs := flag.NewFlagSet("locals", flag.ExitOnError)
+	repo := fs.String("repo", "/repo", "repository")
+	fs.Parse(args)
+	eng, err := LoadEngine(*repo)
+	if err != nil {
+		fmt.Fprintln(os.Stderr, err)
+		os.Exit(2)
+	}
+	out := map[string][]string{}
+	for k, fn := range eng.fnIndex {
+		if !strings.HasPrefix(k, modulePath) || fn.Blocks == nil || fn.Synthetic != "" {
+			continue
+		}
+		if names := declaredNames(fn); len(names) > 0 {
+			out[k] = names
+		}
+	}
+	b, _ := json.MarshalIndent(out, "", " ")
+	if err := os.WriteFile(filepath.Join(verifDir, "locals.json"), b, 0o644); err != nil {
+		fmt.Fprintln(os.Stderr, err)
+		os.Exit(2)
+	}
+	fmt.Printf("locals.json: %d functions\n", len(out))
 }
